@@ -15,7 +15,7 @@ RULE = ('Every (year, method) pair of the documented validity range is executed:
 ASSUMPTIONS = ['datetime.date arithmetic of CPython', 'the two independent oracle pairs in vf/oracles/easter_ref.py '
                '(checked against each other in the same run)']
 MANIFEST = {
-    'technique': 'runtime differential monitor: exhaustive sweep of easter() against independent computus oracles',
+    'technique': 'runtime differential monitor: exhaustive sweep of easter() against independent computus oracles; plus the same easter() calls from four free-running threads with injected yields (sys.monitoring), compared with the single-threaded outcomes',
     'level_text': 'Exhaustive execution of the real easter() over the whole documented domain (every year x method) '
                   'with an independent oracle comparing every result; the domain is finite and small, so the sweep '
                   'is complete on every run (exhaustive: true) rather than sampled.',
